@@ -275,7 +275,6 @@ func c07Run(job *Job, p c07Params, prefix []int) (out schedOut) {
 			out.Err = err.Error()
 			return
 		}
-		reportedSize := asMap(c0.Do("SERVER"))["aof_size"]
 		c0.Close()
 		for _, c := range clis {
 			c.Close()
@@ -284,6 +283,9 @@ func c07Run(job *Job, p c07Params, prefix []int) (out schedOut) {
 			live.Close()
 		}
 		in.Stop()
+		// the server's own idea of its log size (what SERVER aof_size reports), read
+		// after the shutdown flush so that a late sweeper DEL is counted on both sides
+		reportedSize := fmt.Sprint(in.S.aofsz)
 		img := vos.Image(len(vos.Log))[aofPath]
 		if len(img) >= preLog {
 			img = img[preLog:]
